@@ -560,8 +560,13 @@ def r9_plan_pairing(ctx):
         if isinstance(c.func, ast.Attribute) and c.func.attr in ('run_in_executor', 'submit') and any(isinstance(a, ast.Name) and a.id in cons_names for a in c.args):
             for g in ast.walk(getattr(c, '_parent', c)):
                 pass
+    def _submits_consumer(node):
+        return any(isinstance(c, ast.Call) and isinstance(c.func, ast.Attribute) and c.func.attr in ('run_in_executor', 'submit') and any(isinstance(a, ast.Name) and a.id in cons_names for a in c.args) for c in ast.walk(node))
+
     for n in ast.walk(fn.node):
         if isinstance(n, ast.comprehension) and isinstance(n.iter, ast.Call) and isinstance(n.iter.func, ast.Attribute) and n.iter.func.attr == 'items' and isinstance(n.iter.func.value, ast.Name):
+            refs_names.add(n.iter.func.value.id)
+        if isinstance(n, (ast.For, ast.AsyncFor)) and isinstance(n.iter, ast.Call) and isinstance(n.iter.func, ast.Attribute) and n.iter.func.attr == 'items' and isinstance(n.iter.func.value, ast.Name) and _submits_consumer(n):
             refs_names.add(n.iter.func.value.id)
     for c in calls_in(fn.node):
         if isinstance(c.func, ast.Attribute) and c.func.attr == 'add' and isinstance(c.func.value, ast.Name) and c.func.value.id == alias:
@@ -597,8 +602,18 @@ def r9_plan_pairing(ctx):
     for l in walk_local(fn.node):
         if isinstance(l, ast.For) and any(True for _ in self_calls(l, {'restore_metadata'})) and not any(isinstance(a, ast.For) for a in ancestors(l)):
             it_names = {n.id for n in ast.walk(l.iter) if isinstance(n, ast.Name)}
-            tests = [i.test for i in walk_local(l) if isinstance(i, ast.If)]
-            if pending in it_names and tests and all(isinstance(t, ast.UnaryOp) and isinstance(t.op, ast.Not) and isinstance(t.operand, ast.Name) for t in tests):
+            # loop variables bound from the pending mapping (for path, digests in pending.items())
+            lvars = {n.id for n in ast.walk(l.target) if isinstance(n, ast.Name)}
+            empty_edges = []
+            for i in walk_local(l):
+                if isinstance(i, ast.If):
+                    t = i.test
+                    if isinstance(t, ast.UnaryOp) and isinstance(t.op, ast.Not) and isinstance(t.operand, ast.Name) and t.operand.id in lvars:
+                        empty_edges += cfg.nodes_of(i, 'true')
+                    elif isinstance(t, ast.Name) and t.id in lvars:
+                        empty_edges += cfg.nodes_of(i, 'false')
+            finishes = [enclosing_stmt(c) for c in self_calls(l, {'restore_metadata'})]
+            if pending in it_names and empty_edges and finishes and all(cfg.set_dominates(empty_edges, x) for st in finishes for x in cfg.nodes_of(st, 'stmt')):
                 ok = True
     ctx.check(
         ok,
